@@ -22,7 +22,14 @@ def run(name, props):
     res = {}
     try:
         sh(['git', '-C', REPO, 'worktree', 'add', '--detach', d, 'HEAD'])
-        sh(['git', '-C', d, 'apply', os.path.join(V, 'refactors', name, 'patch.diff')])
+        patch = os.path.join(V, 'refactors', name, 'patch.diff')
+        if sh(['git', '-C', d, 'apply', '--check', patch], check=False).returncode == 0:
+            sh(['git', '-C', d, 'apply', patch])
+        elif sh(['git', '-C', d, 'apply', '--3way', patch], check=False).returncode != 0:
+            # written against an older commit and no longer mergeable: analyse it on that commit
+            base = json.load(open(os.path.join(V, 'refactors', name, 'meta.json'))).get('base')
+            sh(['git', '-C', d, 'reset', '-q', '--hard']); sh(['git', '-C', d, 'checkout', '-q', '--detach', base])
+            sh(['git', '-C', d, 'apply', patch])
         for p in props:
             r = sh([os.path.join(V, 'check'), p, '--repo', d], check=False)
             out = r.stdout
